@@ -126,6 +126,18 @@ def scenario(sim):
             if not x:
                 return
             got[key] += len(x)
+    if sim.choose(4) == 0:
+        # the reading side has finished its own sending direction (stdin sent, half-close, now read the answer):
+        # its EOF says nothing about the direction it is still receiving on
+        desc["receiver_half_closed"] = True
+        when = (0.0, 0.0, 0.05)[sim.choose(3)]
+
+        def half_close():
+            if when:
+                sim.sleep(when)
+            dst.shutdown_write()
+        w.spawn("half-close", half_close)
+        sim.probe("receiver_half_closed_own_direction")
     w.spawn("r-out", lambda: reader(False, n_out))
     w.spawn("r-err", lambda: reader(True, n_err + n_err_expected_extra))
     stuck = w.wait(LIMIT + 30)
